@@ -1,0 +1,49 @@
+//go:build verif
+
+// Contracts for RFC 1831 record marking (rpc_transport.go), checked by /verif/govc (comment-only file).
+package absnfs
+
+// fragment header at offset p of a byte array: low 31 bits = length, top bit = last-fragment flag
+//@ specdef fragLen(a [1]int, p mathint) mathint = be32(a, p) % 2147483648
+//@ specdef fragLast(a [1]int, p mathint) bool = be32(a, p) >= 2147483648
+//@ specdef rmMax(rm *RecordMarkingReader) mathint = ite(rm.MaxRecordSize <= 0, 1048576, rm.MaxRecordSize)
+
+//@ func RecordMarkingReader.ReadRecord
+//@ prop C13 C15
+//@ allocbound rmMax(rm)
+//@ requires rm != nil && rm.fragmentBuf != nil && rm.MaxRecordSize <= 1073741824
+//@ modifies rpos, wlen, wdata, elems(byte), rm.lastFragment, rm.complete
+// a record never exceeds the configured limit, whatever the fragmentation
+//@ ensures [bounded] isnil(result1) ==> len(result0) <= rmMax(rm)
+// a record sent as one fragment (the only framing this server's writer produces below its fragment size)
+// is returned exactly, consuming exactly header + payload
+//@ ensures [single-fragment-exact] isnil(result1) && fragLast(rdata[valof(rm.r)], old(rpos[valof(rm.r)])) ==> len(result0) == fragLen(rdata[valof(rm.r)], old(rpos[valof(rm.r)])) && rpos[valof(rm.r)] == old(rpos[valof(rm.r)]) + 4 + len(result0) && forall(k, 0, len(result0), result0[k] == rdata[valof(rm.r)][old(rpos[valof(rm.r)]) + 4 + k], result0[k])
+//@ ensures [single-fragment-accepted] fragLast(rdata[valof(rm.r)], old(rpos[valof(rm.r)])) && fragLen(rdata[valof(rm.r)], old(rpos[valof(rm.r)])) <= rmMax(rm) && rlen[valof(rm.r)] - old(rpos[valof(rm.r)]) >= 4 + fragLen(rdata[valof(rm.r)], old(rpos[valof(rm.r)])) && be32(rdata[valof(rm.r)], old(rpos[valof(rm.r)])) <= 4294967295 ==> isnil(result1)
+//@ ensures [fresh-result] isnil(result1) ==> fresh(result0)
+//@ loop 1 invariant rm != nil && rm.fragmentBuf == old(rm.fragmentBuf) && rm.r == old(rm.r) && rm.MaxRecordSize == old(rm.MaxRecordSize) && maxSize == rmMax(rm) && 0 <= wlen[rm.fragmentBuf] && wlen[rm.fragmentBuf] <= maxSize && rpos[valof(rm.r)] >= old(rpos[valof(rm.r)])
+//@ loop 1 invariant valof(rm.r) != rm.fragmentBuf ==> rdata == old(rdata)
+//@ loop 1 invariant fragLast(rdata[valof(rm.r)], old(rpos[valof(rm.r)])) ==> (!rm.complete && wlen[rm.fragmentBuf] == 0 && rpos[valof(rm.r)] == old(rpos[valof(rm.r)])) || (rm.complete && wlen[rm.fragmentBuf] == fragLen(rdata[valof(rm.r)], old(rpos[valof(rm.r)])) && rpos[valof(rm.r)] == old(rpos[valof(rm.r)]) + 4 + wlen[rm.fragmentBuf] && forall(j, 0, wlen[rm.fragmentBuf], wdata[rm.fragmentBuf][j] == rdata[valof(rm.r)][old(rpos[valof(rm.r)]) + 4 + j]))
+
+//@ func RecordMarkingWriter.WriteRecord
+//@ prop C13 C14
+//@ requires rm != nil && rm.maxFragment > 0 && rm.maxFragment <= 2147483647
+//@ modifies wlen, wdata, locks
+//@ ensures [frame] appendFrame(valof(rm.w), old(wlen[valof(rm.w)])) && held(rm.mu) == 0
+// a record no longer than the fragment size goes out as exactly one last-fragment frame: header then the bytes
+//@ ensures [single-frame] isnil(result) && len(data) <= rm.maxFragment ==> wlen[valof(rm.w)] == old(wlen[valof(rm.w)]) + 4 + len(data) && be32(wdata[valof(rm.w)], old(wlen[valof(rm.w)])) == 2147483648 + len(data) && forall(k, 0, len(data), wdata[valof(rm.w)][old(wlen[valof(rm.w)]) + 4 + k] == data[k], data[k])
+// in general: every byte of data is emitted, plus 4 header bytes per frame
+//@ ensures [total] isnil(result) ==> wlen[valof(rm.w)] >= old(wlen[valof(rm.w)]) + 4 + len(data)
+//@ loop 1 invariant rm != nil && held(rm.mu) == -1 && remaining >= 0 && offset >= 0 && offset + remaining == len(data) && len(data) > 0
+//@ loop 1 invariant appendFrame(valof(rm.w), old(wlen[valof(rm.w)])) && wlen[valof(rm.w)] >= old(wlen[valof(rm.w)]) + offset + ite(offset > 0, 4, 0)
+//@ loop 1 invariant len(data) <= rm.maxFragment ==> (offset == 0 && wlen[valof(rm.w)] == old(wlen[valof(rm.w)])) || (remaining == 0 && wlen[valof(rm.w)] == old(wlen[valof(rm.w)]) + 4 + len(data) && be32(wdata[valof(rm.w)], old(wlen[valof(rm.w)])) == 2147483648 + len(data) && forall(k, 0, len(data), wdata[valof(rm.w)][old(wlen[valof(rm.w)]) + 4 + k] == data[k], data[k]))
+
+// Writing then reading a record is the identity (records up to the writer's fragment size): the frame
+// WriteRecord emits satisfies ReadRecord's single-fragment precondition and yields the same bytes.
+//@ lemma rm_identity_single
+//@ prop C13
+//@ var a [1]int, p mathint, n mathint, maxRec mathint
+//@ hyp 0 <= n && n <= 1048576 && maxRec == 1048576
+//@ hyp be32(a, p) == 2147483648 + n      // WriteRecord#single-frame header
+//@ concl [last] fragLast(a, p)
+//@ concl [len] fragLen(a, p) == n
+//@ concl [accepted] fragLen(a, p) <= maxRec && be32(a, p) <= 4294967295
